@@ -48,6 +48,16 @@ VALID = {
     "H_comment": 'def exp { splitters: uid // note\n return "a" weighted 1, "b" weighted 1 }',
     "I_salt1": 'def exp { salt: "s 1" splitters: uid return "a" weighted 1, "b" weighted 1 }',
     "I_salt2": 'def exp { salt: "s  1" splitters: uid return "a" weighted 1, "b" weighted 1 }',
+    # pairs that collide under weak change detection: byte sums (transposition), Adler-32 ((+1,-2,+1) on three bytes),
+    # "same length", "same first and last 40 characters"
+    "K_aca": 'def exp { splitters: uid return "aca" weighted 1, "x" weighted 1 }',
+    "K_bab": 'def exp { splitters: uid return "bab" weighted 1, "x" weighted 1 }',
+    "K_ab": 'def exp { splitters: uid return "ab" weighted 1, "x" weighted 1 }',
+    "K_ba": 'def exp { splitters: uid return "ba" weighted 1, "x" weighted 1 }',
+    "M_mid1": 'def exp { /* a long comment that is the same in both revisions ........ */ splitters: uid return "m1" weighted 1, "x" weighted 3 '
+              '/* and a long identical tail ............................................ */ }',
+    "M_mid2": 'def exp { /* a long comment that is the same in both revisions ........ */ splitters: uid return "m2" weighted 3, "x" weighted 1 '
+              '/* and a long identical tail ............................................ */ }',
     "F_shared": 'def exp { splitters: uid, plan if plan in ("pro", "max") { return 1 weighted 1, 2 weighted 1 } else '
                 '{ return 0.5 weighted 1 } }',
 }
@@ -65,6 +75,7 @@ INVALID = {
     "bad_weight": 'def exp { splitters: uid return "a" weighted .5, "b" weighted 1 }',
     "bad_comment_joined": 'def exp { splitters: uid // note return "a" weighted 1, "b" weighted 1 }',
     "bad_string_newline": 'def exp { splitters: uid return "grp\nA" weighted 1, "grp B" weighted 1 }',
+    "bad_ecg": 'ecg exp { splitters: uid return "aca" weighted 1, "x" weighted 1 }',
     "bad_prefix": 'junk def exp { splitters: uid return "a" weighted 1, "b" weighted 1 }',
 }
 # grammatical, but construction fails after parsing (known finding of C07): the lifecycle model only
@@ -73,6 +84,29 @@ LATE_FAIL = {
     "late_keyword": 'def exp { splitters: class return "a" weighted 1, "b" weighted 1 }',
     "late_name": 'def lambda { splitters: uid return "a" weighted 1 }',
 }
+
+
+def _collision_pairs():
+    """data/collisions.json (tools/make_collisions.py): pairs of valid texts colliding under crc32 / truncated digests"""
+    import json
+    import os
+
+    from pyabv.run import HOME
+
+    try:
+        with open(os.path.join(HOME, "data", "collisions.json")) as f:
+            d = json.load(f)
+    except OSError:
+        return []
+    pairs = []
+    for fn, p in sorted(d.items()):
+        if p["a"] != p["b"] and p["label_a"] != p["label_b"]:
+            VALID["X_%s_a" % fn], VALID["X_%s_b" % fn] = p["a"], p["b"]
+            pairs.append(("X_%s_a" % fn, "X_%s_b" % fn))
+    return pairs
+
+
+COLLISION_PAIRS = _collision_pairs()
 TEXTS = {**VALID, **INVALID, **LATE_FAIL}
 
 PANEL = [
@@ -236,12 +270,27 @@ def run(ctx):
             lc.run_history([("new", 1, "E_salt")] + [("recompile", 0, t) for t in seq], "exhaustive2")
     # third exhaustive alphabet: checksum-collision twins (length <= 3)
     alpha3 = ["G_space1", "G_space2", "G_case", "H_comment", "bad_comment_joined", "I_salt1", "I_salt2", "bad_string_newline"]
+    alpha4 = ["K_aca", "K_bab", "bad_ecg", "K_ab", "K_ba", "M_mid1", "M_mid2"]
+    for L in range(1, 4 if not ctx.quick() else 3):
+        for seq in itertools.product(alpha4, repeat=L):
+            idx += 1
+            if not ctx.mine(idx):
+                continue
+            lc.run_history([("new", 1, "A")] + [("recompile", 0, t) for t in seq], "exhaustive4")
     for L in range(1, 4 if not ctx.quick() else 3):
         for seq in itertools.product(alpha3, repeat=L):
             idx += 1
             if not ctx.mine(idx):
                 continue
             lc.run_history([("new", 1, "A")] + [("recompile", 0, t) for t in seq], "exhaustive3")
+    # fifth layer: pairs that collide under crc32 / digests truncated to 32 bits (data/collisions.json)
+    for a, b in COLLISION_PAIRS:
+        for seq in ((a, b), (b, a), (a, b, a), (a, "bad_char", b), (b, b, a)):
+            idx += 1
+            if not ctx.mine(idx):
+                continue
+            lc.run_history([("new", 1, "A")] + [("recompile", 0, t) for t in seq], "collision-pairs")
+    ctx.note("collision_pairs", [a[2:-2] for a, _ in COLLISION_PAIRS])
     # ephemeral texts: every source string is built at the moment it is used and dropped right after (with garbage
     # collections in between), all of the same length - an evaluator must not recognise "the same source" by anything
     # but its content
